@@ -86,7 +86,13 @@ def held_region(body, bi, t):
         if tt["k"] == "call":
             for a in tt["args"]:
                 if a.get("k") == "move" and not a["pl"]["p"] and a["pl"]["l"] == gl:
-                    escapes = True
+                    if "Guard<" in tt.get("destty", "") and not tt["dest"]["p"] and tt["t"] is not None:
+                        # the guard passes through a helper (e.g. LockResult::unwrap): keep tracking the result
+                        rest, esc = held_region_from(body, x, tt["dest"]["l"])
+                        region |= rest
+                        escapes = escapes or esc
+                    else:
+                        escapes = True
                     ended = True
             if ended:
                 continue
@@ -115,7 +121,12 @@ def held_region_from(body, start_bi, gl):
         if tt["k"] == "drop" and not tt["pl"]["p"] and tt["pl"]["l"] == gl:
             continue
         if tt["k"] == "call" and any(a.get("k") == "move" and not a["pl"]["p"] and a["pl"]["l"] == gl for a in tt["args"]):
-            escapes = True
+            if "Guard<" in tt.get("destty", "") and not tt["dest"]["p"] and tt["t"] is not None:
+                rest, esc = held_region_from(body, x, tt["dest"]["l"])
+                region |= rest
+                escapes = escapes or esc
+            else:
+                escapes = True
             continue
         if tt["k"] == "return":
             if gl == 0:
